@@ -75,7 +75,9 @@ def part_index(b, sl, parts_local):
         return sorted(set(idx))
     for bi, t in sl.find_calls(r"ops::Index::index$"):
         if parts_local in b.slice_op(t["args"][0]).locals:
-            idx.append(const_value(op_const(t["args"][1]) or {}))
+            k_ = const_value(op_const(t["args"][1]) or {})
+            if isinstance(k_, int):
+                idx.append(k_)  # `parts[..]` (a range: the whole vector again) is not an element index
     for d in sl.assigns:
         rv = d["stmt"]["rv"]
         if rv["k"] == "use":
